@@ -908,7 +908,7 @@ package erpc
 //@   ensures[locks-restored] sameLocks()
 //@ func (*session).closeLocked
 //@   property C07 C08
-//@   flags libframe frame-unchecked
+//@   flags libframe frame-unchecked seed-elems
 //@   requires?[session-wellformed] sessShape(s) && s.peer.sessHub != nil && s.peer.sessHub.sessions != nil
 //@   modifies allof(type(session)), allof(type(socket.socket)), lockset, waitgroups, channels, mapviews
 //@   ensures[index-only-own-entry] forall h *SessionHub, k iface :: {h.sessions.#gkeys[k]} old(h.sessions.#gvals[k]) != iface(type(*session), s) ==> h.sessions.#gkeys[k] == old(h.sessions.#gkeys[k]) && h.sessions.#gvals[k] == old(h.sessions.#gvals[k])
@@ -922,12 +922,14 @@ package erpc
 // (replies to calls issued before Close are still read)
 //@ func (*session).checkStatus
 //@   property C08
+//@   flags seed-elems
 //@   modifies nothing
 //@   ensures[member] result ==> (exists i int :: 0 <= i && i < len(checkList) && s.status == checkList[i])
 //@   ensures[not-member] !result ==> (forall i int :: {checkList[i]} 0 <= i && i < len(checkList) ==> s.status != checkList[i])
 //@   loop 0: invariant[none-so-far] $idx >= -1 && (forall j int :: 0 <= j && j <= $idx ==> checkList[j] != s.status) && stat == s.status
 //@ func (*session).goonRead
 //@   property C08
+//@   flags seed-elems
 //@   modifies nothing
 //@   ensures[reads-while-ok-or-closing-actively] result <==> (s.status == statusOk || s.status == statusActiveClosing)
 
@@ -935,6 +937,7 @@ package erpc
 // one of the listed source states, otherwise leaves it alone
 //@ func (*session).tryChangeStatus
 //@   property C07
+//@   flags seed-elems
 //@   modifies s.status
 //@   ensures[moved-only-if-listed] result ==> (exists i int :: 0 <= i && i < len(fromList) && old(s.status) == old(fromList[i]))
 //@   ensures[moved-if-listed] !result ==> (forall i int :: {old(fromList[i])} 0 <= i && i < len(fromList) ==> old(s.status) != old(fromList[i]))
